@@ -309,20 +309,26 @@ fn api_surface_answer() -> String {
     }
 }
 
-/// `#stat` lines of the generator: how many public items there are, which are not driven
-fn api_stats(g: &mut Gen) {
-    if let Ok((scanned, driven, listed, unlisted)) = api_report() {
-        g.count_n("api.public_items", scanned.len() as u64);
-        g.count_n("api.driven", driven.len() as u64);
-        g.count_n("api.listed_not_driven", listed.len() as u64);
-        g.count_n("api.unlisted", unlisted.len() as u64);
-        for k in listed {
-            g.count(&format!("api.not_driven:{}", key_token(&k)));
+/// the `#stat` entries of the generator (`key count`, tab separated): how many public items there
+/// are, which are not driven
+fn api_stats_line() -> String {
+    let mut out: Vec<String> = vec![];
+    match api_report() {
+        Ok((scanned, driven, listed, unlisted)) => {
+            out.push(format!("api.public_items {}", scanned.len()));
+            out.push(format!("api.driven {}", driven.len()));
+            out.push(format!("api.listed_not_driven {}", listed.len()));
+            out.push(format!("api.unlisted {}", unlisted.len()));
+            for k in listed {
+                out.push(format!("api.not_driven:{} 1", key_token(&k)));
+            }
+            for k in unlisted {
+                out.push(format!("api.UNLISTED:{} 1", key_token(&k)));
+            }
         }
-        for k in unlisted {
-            g.count(&format!("api.UNLISTED:{}", key_token(&k)));
-        }
+        Err(_) => out.push("api.scan_failed 1".to_string()),
     }
+    out.join("\t")
 }
 
 // ---------------------------------------------------------------------------------------------
